@@ -13,6 +13,7 @@ import (
 	"fmt"
 	"go/token"
 	"go/types"
+	"os"
 	"runtime/debug"
 	"strings"
 	"time"
@@ -65,6 +66,14 @@ type interpreter struct {
 	natState           map[string]interface{}
 	arena              []value
 	sp                 int
+	lastPanicWhere     []string
+	lastInstr          ssa.Instruction
+	traceFn            string
+	spec               *specCtx
+	ifConv             bool
+	ifStats            IfConvStats
+	freshMaps          map[*omap]struct{}
+	icptPure           map[*ssa.Function]bool
 }
 
 type deferred struct {
@@ -88,6 +97,7 @@ type frame struct {
 	tolerant         bool
 	arena            []value // arena state while this frame is the innermost one
 	sp               int
+	skipPhis         bool
 }
 
 func (fr *frame) get(o operand) value {
@@ -120,6 +130,10 @@ func (i *interpreter) globalAddr(g *ssa.Global) *value {
 
 // runtimeError builds the target-visible value of a run-time panic.
 func (i *interpreter) runtimeError(msg string) value {
+	i.lastPanicWhere = i.stackNames()
+	if i.lastInstr != nil {
+		i.lastPanicWhere = append([]string{i.prog.Fset.Position(i.lastInstr.Pos()).String() + " (" + i.lastInstr.String() + ")"}, i.lastPanicWhere...)
+	}
 	return iface{i.runtimeErrorString, strings.TrimPrefix(msg, "runtime error: ")}
 }
 
@@ -177,6 +191,7 @@ func (i *interpreter) frozenWrite(what string) {
 // visitInstr interprets a single instruction.
 func visitInstr(fr *frame, ci *cinstr) continuation {
 	i := fr.i
+	i.lastInstr = ci.ins
 	switch instr := ci.ins.(type) {
 	case *ssa.UnOp:
 		fr.regs[ci.dst] = i.unop(fr, instr, fr.get(ci.x))
@@ -246,6 +261,9 @@ func visitInstr(fr *frame, ci *cinstr) continuation {
 		if i.frozenCells != nil {
 			i.checkFrozen(addr)
 		}
+		if i.spec != nil {
+			i.specLogDeep(addr)
+		}
 		store(mustDeref(instr.Addr.Type()), addr, fr.get(ci.y))
 
 	case *ssa.If:
@@ -257,9 +275,15 @@ func visitInstr(fr *frame, ci *cinstr) continuation {
 			taken = c
 		case symBool:
 			if fr.tryIfConvert(ci, c) {
+				if i.traceFn != "" && strings.Contains(fr.cf.name, i.traceFn) {
+					fmt.Fprintf(os.Stderr, "TRACE   if-converted at block %d cond %s -> join %d\n", fr.prevBlock.index, c.t.full(), fr.block.index)
+				}
 				return kJump
 			}
 			taken = i.sym.decide(c.t)
+			if i.traceFn != "" && strings.Contains(fr.cf.name, i.traceFn) {
+				fmt.Fprintf(os.Stderr, "TRACE   decided %v on %s\n", taken, c.t.full())
+			}
 		default:
 			panic(fmt.Sprintf("If: condition is %T", c))
 		}
@@ -296,8 +320,14 @@ func visitInstr(fr *frame, ci *cinstr) continuation {
 			fr.regs[ci.dst] = addr
 		} else {
 			addr = fr.regs[ci.dst].(*value)
+			if i.spec != nil {
+				i.specLogDeep(addr)
+			}
 		}
 		*addr = zero(mustDeref(instr.Type()))
+		if i.spec != nil && instr.Heap {
+			i.markFresh(addr)
+		}
 
 	case *ssa.MakeSlice:
 		cp := asInt64(i.concreteInt(fr.get(ci.y)))
@@ -313,10 +343,22 @@ func visitInstr(fr *frame, ci *cinstr) continuation {
 		for k := range slice {
 			slice[k] = zero(tElt)
 		}
+		if i.spec != nil {
+			for k := range slice {
+				i.markFresh(&slice[k])
+			}
+		}
 		fr.regs[ci.dst] = slice[:ln]
 
 	case *ssa.MakeMap:
-		fr.regs[ci.dst] = newOmap()
+		m := newOmap()
+		if i.spec != nil {
+			if i.freshMaps == nil {
+				i.freshMaps = map[*omap]struct{}{}
+			}
+			i.freshMaps[m] = struct{}{}
+		}
+		fr.regs[ci.dst] = m
 
 	case *ssa.Range:
 		it := i.rangeIter(fr.get(ci.x), instr.X.Type())
@@ -381,6 +423,11 @@ func visitInstr(fr *frame, ci *cinstr) continuation {
 		}
 		if m.frozen {
 			i.frozenWrite("update of a frozen map")
+		}
+		if i.spec != nil {
+			if _, fresh := i.freshMaps[m]; !fresh {
+				panic(specBail{"map update"})
+			}
 		}
 		key := fr.get(ci.y)
 		if _, ok := key.(symStr); ok {
@@ -581,6 +628,9 @@ func call(i *interpreter, caller *frame, callpos token.Pos, fn value, args []val
 func callSSA(i *interpreter, caller *frame, callpos token.Pos, fn *ssa.Function, args []value, env []value) value {
 	if fn.Parent() == nil {
 		if icpt := i.intercept(fn); icpt != nil {
+			if i.spec != nil && !i.icptPure[fn] {
+				panic(specBail{"impure intercept " + fn.String()})
+			}
 			return icpt(caller, fn, args)
 		}
 		if fn.Blocks == nil {
@@ -620,6 +670,9 @@ func callSSA(i *interpreter, caller *frame, callpos token.Pos, fn *ssa.Function,
 	for k, r := range cf.localRegs {
 		cell := zero(cf.localTyps[k])
 		fr.regs[r] = &cell
+		if i.spec != nil {
+			i.markFresh(&cell)
+		}
 	}
 	fr.block = cf.blocks[0]
 	fr.arena, fr.sp = i.arena, i.sp
@@ -656,6 +709,9 @@ func runFrame(fr *frame) {
 			if _, ok := r.(goroutineSwitch); ok {
 				panic(r)
 			}
+			if _, ok := r.(specBail); ok {
+				panic(r)
+			}
 			if et, ok := r.(engineTrap); ok {
 				if et.where == nil {
 					et.where = fr.i.stackNames()
@@ -683,7 +739,9 @@ func runFrame(fr *frame) {
 	sym := fr.i.sym
 	for {
 		b := fr.block
-		if len(b.phis) > 0 {
+		if fr.skipPhis {
+			fr.skipPhis = false
+		} else if len(b.phis) > 0 {
 			predIndex := -1
 			for k, p := range b.b.Preds {
 				if p == fr.prevBlock.b {
@@ -698,6 +756,9 @@ func runFrame(fr *frame) {
 			for k, phi := range b.phis {
 				fr.regs[phi.dst] = fr.phitemps[k]
 			}
+		}
+		if fr.i.traceFn != "" && strings.Contains(fr.cf.name, fr.i.traceFn) {
+			fmt.Fprintf(os.Stderr, "TRACE %s block %d (%s) spec=%v\n", fr.cf.fn.Name(), b.index, b.b.Comment, fr.i.spec != nil)
 		}
 		sym.steps += int64(len(b.instrs))
 		if StepProfile != nil {
@@ -813,7 +874,7 @@ func (fr *frame) visitTolerant(ci *cinstr) (k continuation) {
 	defer func() {
 		if r := recover(); r != nil {
 			switch r.(type) {
-			case pathAbort, solverTrouble, goroutineSwitch:
+			case pathAbort, solverTrouble, goroutineSwitch, specBail:
 				panic(r)
 			}
 			fr.i.arena, fr.i.sp = savedArena, savedSP
